@@ -16,6 +16,15 @@ CHECKS = {
  "C04": dict(cat="exploration", sec="4 C04", tech="output monitor decoding every returned/read checkpoint with an independent note reader; wall-clock window inequality for timestamps (runtime monitoring)",
    text="Every accepted update and every stored checkpoint read back (in-process and through the real internal/http router) is decoded with kit/refnote: text identical to the submitted text, valid log signature, exactly one valid line per configured witness key (1-4 keys, legacy and cosignature/v1, production pair), cosignature time inside [clock before call, clock after call], read-after-accept identical. >=64 discriminating refreshes are issued after the clock passed the previous signature's second.",
    note="Assumes the system clock is not stepped backwards; inequality between clock readings, not a deadline."),
+ "C08": dict(cat="exploration", sec="4 C08", tech="honest-probe monitor after generated prior histories, proofs from an independent RFC 6962 implementation (runtime monitoring)",
+   text="After every generated prior history (hostile requests of every kind, checkpoints with 90-99 extra signature lines, extension lines, a size-0 first checkpoint; explicit trees to 2^16 and region trees to 2^40) an honest probe - clean log-signed checkpoint, old size = witness size, reference consistency proof accepted by both kit verifiers - is submitted for every log, twice in a row (growth and refresh), and must be accepted with a checkpoint of the submitted size. Floors: 300 probes after padded checkpoints, 300 after a size-0 first checkpoint, 300 at sizes above 2^32. One known finding (F2, stored size 0) is listed in KNOWN_FINDINGS.json.",
+   note="Probes are skipped for logs whose stored checkpoint is a log-signed root that is no tree (a misbehaving log cannot be honest afterwards)."),
+ "C09": dict(cat="exploration", sec="4 C09", tech="differential monitor against an executable reference model over an exhaustively enumerated decision table + random huge sizes (runtime monitoring)",
+   text="Every cell of (stored in {nothing,0..N}) x (submitted 0..N) x (old 0..N, 2^63, 2^64-1) x {same branch, fork below stored, fork at stored} x 10 proof variants (+ unknown ID / wrong key / wrong origin) is executed on a fresh real witness (N=12 quick, 17 thorough, both storages in thorough) and compared with kit/refwitness on accept/refuse, sentinel identity (errors.Is) and returned bytes; plus random histories on region trees with sizes to 2^63 and old sizes to 2^64-1. exhaustive=true refers to the small scope.",
+   note="Rule order as in the statement; proof verdict from kit/reftree cross-checked with x/mod tlog at start-up; the two excluded cells are executed, not judged."),
+ "C20": dict(cat="exploration", sec="4 C20", tech="counter-delta monitor through a recording MetricFactory compared with the reference model's verdict (runtime monitoring)",
+   text="A recording metric factory is installed before the first witness exists; around every Update of generated histories (all stores, storage faults in ~6% of requests) the delta of all four counters for all labels of the unit is compared with the reference model: attempt iff known log, success iff accepted, invalid-consistency iff bad proof, inconsistent iff same-size different root, nothing else; totals are cross-checked per history. Floors of 200 per verdict class incl. storage failure.",
+   note="IDs are unique per unit so process-wide counters are attributable under parallel units; ambiguous/out-of-claim requests judged on attempt+success only."),
 }
 
 NOT_YET = "check not built yet in this session (planned, see DESIGN.md section 4)"
